@@ -31,6 +31,8 @@ def replay_tokens(states, extra):
         n += 1
         ids, out = c['ids'], st['out']
         text = X.render_tab(ids)
+        if n % 3 == 0:
+            sc = X.scope()        # new function objects (old ones are freed: their ids get reused)
         obs = X.observe(text, evaluator, sc)
         classes[out['c']] = classes.get(out['c'], 0) + 1
         probs = X.compare(out, obs)
@@ -181,6 +183,7 @@ def replay_ops(states, extra):
         out = st['out']
         text = ''.join(c['toks'])
         canon = ''.join(c['canon'])
+        funcs = X.scope()[1]
         classes[out['c']] = classes.get(out['c'], 0) + 1
         obs = X.observe(text, evaluator, (dict(OPS_BINDINGS[0]), funcs, sufs))
         probs = [p for p in X.compare(out, obs) if p[0] not in ('fine', 'usage')]
